@@ -141,7 +141,7 @@ QQWellFormed(t) ==
 
 RECURSIVE Ev(_, _, _), EvArgs(_, _, _, _, _), EvBody(_, _, _, _), EvBodySub(_, _, _, _), EvLet(_, _, _, _),
           ApplyFn(_, _, _), QQ(_, _, _), QQSeq(_, _, _, _, _), EvMapLit(_, _, _, _, _),
-          Expand(_, _, _), CallBuiltin(_, _, _), MapF(_, _, _, _, _), UpdateIn(_, _, _, _, _)
+          Expand(_, _, _), CallBuiltin(_, _, _), MapF(_, _, _, _, _), UpdateIn(_, _, _, _, _), SwapLoop(_, _, _, _)
 
 \* evaluate forms xs[i..] in scope e; value of the last; nil when there is none
 \* a sub-evaluation (not in tail position): one level deeper, depth restored afterwards
@@ -251,6 +251,17 @@ UpdateIn(v, path, i, f, st) ==
       IN IF ~Ok(r) THEN r ELSE R("val", VecV([v.xs EXCEPT ![p.i + 1] = r.v]), r.st)
     ELSE R("unspec", NilV, st)
 
+\* swap!: the update function is applied to the current value; when the atom was written meanwhile (by the update
+\* function itself: evaluation is sequential here) the attempt is dropped and swap! starts over with the new value
+\* (compare-and-set on the version counter avers, as AtomCas.tla / AtomImpl.tla)
+SwapLoop(f, id, extra, st) ==
+  LET ver == st.avers[id]
+      r == ApplySub(f, <<st.atoms[id]>> \o extra, st)
+  IN IF ~Ok(r) THEN r
+     ELSE IF r.st.avers[id] = ver THEN R("val", r.v, [r.st EXCEPT !.atoms[id] = r.v, !.avers[id] = @ + 1])
+     ELSE IF r.st.fuel <= 0 THEN R("div", NilV, r.st)
+     ELSE SwapLoop(f, id, extra, [r.st EXCEPT !.fuel = @ - 1])
+
 CallBuiltin(name, a, st) ==
   LET n == Len(a) IN
   IF name \in PureNames THEN
@@ -272,7 +283,7 @@ CallBuiltin(name, a, st) ==
     [] name = "rawboom!" -> R("err", ErrV("boom"), st)
     [] name = "rawboom-str!" -> R("thr", StrV("boom-str"), st)
     [] name = "atom" -> IF n # 1 THEN R("err", ErrV("builtin"), st)
-                        ELSE R("val", AtomV(Len(st.atoms) + 1), [st EXCEPT !.atoms = Append(@, a[1])])
+                        ELSE R("val", AtomV(Len(st.atoms) + 1), [st EXCEPT !.atoms = Append(@, a[1]), !.avers = Append(@, 0)])
     [] name = "deref" -> IF n # 1 THEN R("err", ErrV("builtin"), st)
                          ELSE IF a[1].t = "atom" THEN R("val", st.atoms[a[1].i], st)
                          \* a future: its (write-once) outcome, a value or the error it ended with
@@ -295,11 +306,10 @@ CallBuiltin(name, a, st) ==
          ELSE R("val", BoolV(name = "future-done?"), st)
     [] name = "reset!" -> IF n # 2 THEN R("err", ErrV("builtin"), st)
                           ELSE IF a[1].t # "atom" THEN R("err", ErrV("builtin"), st)
-                          ELSE R("val", a[2], [st EXCEPT !.atoms[a[1].i] = a[2]])
+                          ELSE R("val", a[2], [st EXCEPT !.atoms[a[1].i] = a[2], !.avers[a[1].i] = @ + 1])
     [] name = "swap!" -> IF n < 2 THEN R("unspec", NilV, st)
                          ELSE IF a[1].t # "atom" THEN R("err", ErrV("builtin"), st)
-                         ELSE LET r == ApplySub(a[2], <<st.atoms[a[1].i]>> \o SubSeq(a, 3, n), st) IN
-                           IF ~Ok(r) THEN r ELSE R("val", r.v, [r.st EXCEPT !.atoms[a[1].i] = r.v])
+                         ELSE SwapLoop(a[2], a[1].i, SubSeq(a, 3, n), st)
     [] name = "apply" -> IF n < 2 THEN R("err", ErrV("builtin"), st)
                          ELSE IF a[n].t = "nil" THEN R("unspec", NilV, st)
                          ELSE IF ~IsSeq(a[n]) THEN R("err", ErrV("builtin"), st)
@@ -405,7 +415,7 @@ Ev(a, e, st0) ==
 (***************************************************************************)
 Fuel0 == 3000
 BaseState == [envs |-> <<[o |-> 0, b |-> [nm \in BuiltinNames |-> BfnV(nm)]]>>,
-              atoms |-> <<>>, eff |-> <<>>, fuel |-> Fuel0, depth |-> 0, depths |-> <<>>,
+              atoms |-> <<>>, avers |-> <<>>, eff |-> <<>>, fuel |-> Fuel0, depth |-> 0, depths |-> <<>>,
               track |-> FALSE, visits |-> {}, slept |-> FALSE]
 
 \* transcribed from lib/core/header-basic.lisp and lib/coreextented/header-coreextended.lisp
